@@ -72,6 +72,91 @@ Proof.
     exists v', u. split; [apply H|]. cbn [app]. auto 10.
 Qed.
 
+(** typed slice drop with a fuse that outlives it *)
+Lemma drop_slice_tick c v ys : forall p u k,
+  store_ok c v -> N.of_nat (p + length ys) <= vcap v -> Held c v p ys ->
+  Forall (tok_ok (szn c)) ys -> ufuse u = Some k -> N.of_nat (length ys) <= k ->
+  exists u', drop_slice c (p * szn c) (length ys) (v, u) = Ok tt (v, u') /\
+    ulog u' = rev (map EDrop ys) ++ ulog u /\ unext u' = unext u.
+Proof.
+  induction ys as [|y ys IH]; intros p u k Hst Hle Hh Hall Hf Hk.
+  - exists u. cbn [length drop_slice map rev app]. unfold ret. auto.
+  - cbn [length] in Hle, Hk. cbn [length drop_slice].
+    apply (held_split c v p [y] ys) in Hh. destruct Hh as [H1 H2].
+    inversion Hall; subst.
+    rewrite (drop_at_pre c v u p y) by (auto; lia).
+    rewrite (user_call_tick v (emit (EDrop y) u) k) by (auto; lia).
+    replace (p * szn c + szn c)%nat with ((p + 1) * szn c)%nat by lia.
+    destruct (IH (p + 1)%nat (set_fuse (Some (k - 1)) (emit (EDrop y) u)) (k - 1))
+      as [u' [E [L Nx]]]; auto; try lia.
+    exists u'. split; [exact E|]. split.
+    + rewrite L. cbn [map rev ulog set_fuse emit]. rewrite <- app_assoc. reflexivity.
+    + rewrite Nx. reflexivity.
+Qed.
+
+(** [drop_elements_range] with an armed fuse: [n] = number of elements in the range *)
+Lemma drop_range_fused c known v u ys i j k :
+  store_ok c v -> (i <= j)%nat -> N.of_nat j <= vcap v -> length ys = (j - i)%nat ->
+  Held c v i ys -> Forall (tok_ok (szn c)) ys -> ufuse u = Some k ->
+  exists u',
+    drop_range c known (N.of_nat i) (N.of_nat j) (v, u)
+    = (if c_dg c && (k <? N.of_nat (j - i)) then Panic PUser (v, u') else Ok tt (v, u')) /\
+    unext u' = unext u /\
+    ulog u' = rev (if c_dg c then (if k <? N.of_nat (j - i)
+                                   then map EDrop (if known then ys else firstn (S (N.to_nat k)) ys)
+                                   else map EDrop ys) else []) ++ ulog u.
+Proof.
+  intros Hst Hij Hj Hlen Hh Hall Hf. unfold drop_range, bind, assert_.
+  rewrite (proj2 (N.leb_le (N.of_nat i) (N.of_nat j))) by lia.
+  rewrite orb_true_r. unfold ret at 1. rewrite bo_of_nat.
+  replace (N.to_nat (N.of_nat j - N.of_nat i)) with (length ys) by lia.
+  destruct (c_dg c); cbn [andb].
+  - rewrite <- Hlen. destruct (N.ltb_spec k (N.of_nat (length ys))) as [Hlt|Hge].
+    + destruct known.
+      * destruct (drop_slice_fire c v ys i u (N.to_nat k)) as [u' [E [L [Nx F]]]]; auto; try lia.
+        { rewrite N2Nat.id. exact Hf. }
+        exists u'. auto.
+      * destruct (drop_loop_fire c v ys i u (N.to_nat k)) as [u' [E [L [Nx F]]]]; auto; try lia.
+        { rewrite N2Nat.id. exact Hf. }
+        exists u'. auto.
+    + destruct known.
+      * destruct (drop_slice_tick c v ys i u k) as [u' [E [L Nx]]]; auto; try lia. exists u'. auto.
+      * destruct (drop_loop_tick c v ys i u k) as [u' [E [L [Nx F]]]]; auto; try lia. exists u'. auto.
+  - exists u. unfold ret. cbn [rev app]. auto.
+Qed.
+
+(** the rest of [Drain::drop] once the un-yielded elements are destroyed *)
+Lemma drain_drop_after c v u u1 xs s e i j known :
+  RangeAlive c v xs s e i j ->
+  drop_range c known (N.of_nat i) (N.of_nat j) (v, u) = Ok tt (v, u1) ->
+  let d := {| dcur := {| ci := N.of_nat i; ce := N.of_nat j |};
+              dstart := N.of_nat s; dend := N.of_nat e; dorig := N.of_nat (length xs) |} in
+  exists v', drain_drop c known d (v, u) = Ok tt (v', u1) /\
+    Rep c v' (VecSpec.sp_drain s e xs) /\ vcap v' = vcap v /\ vbk v' = vbk v.
+Proof.
+  intros HA E1 d. destruct HA as [Hle Hlen Hcap Hus Hst Hp Hm Ht Htok].
+  destruct Hle as [Hsi [Hij [Hje Hel]]].
+  set (tail := skipn e xs) in *.
+  assert (Hlt : length tail = (length xs - e)%nat) by apply skipn_length.
+  assert (Hlp : length (firstn s xs) = s) by (apply firstn_length_le; lia).
+  destruct (moved_state c v (firstn s xs) tail s Hst) as [Hst' [Hp' Ht']]; auto; try lia.
+  eexists. split; [|split].
+  - unfold drain_drop, d. cbn [dcur ci ce dend dstart dorig].
+    rewrite (bind_ok _ _ _ _ _ E1).
+    rewrite (bind_ok _ _ _ tt _
+               (move_elements_ok c v u1 (N.of_nat e) (N.of_nat s)
+                  (N.of_nat (length xs) - N.of_nat e) tail Hst
+                  ltac:(lia) ltac:(lia) ltac:(lia) ltac:(rewrite Nat2N.id; exact Ht))).
+    unfold setv. cbn [fst snd]. reflexivity.
+  - rewrite Nat2N.id. unfold VecSpec.sp_drain. fold tail.
+    apply rep_of_held; cbn [vlen vcap with_len with_mem]; auto.
+    + rewrite app_length. lia.
+    + lia.
+    + apply held_app; [exact Hp'|]. rewrite Hlp. exact Ht'.
+    + apply Forall_app. split; [apply Forall_firstn' | apply Forall_skipn']; exact Htok.
+  - cbn [vcap vbk with_len with_mem]. auto.
+Qed.
+
 (** what a fused step may do: as [step_ok], but the fuse may still be armed afterwards ([run_step] disarms it) *)
 Record step_okf (c : cfg) (w w' : world) (st' : astate) (evs : list event) (dnx : N) : Prop := {
   sf_rep : WRep c w' st';
@@ -245,6 +330,95 @@ Proof.
       exact (uevents_drops true (a_xs av) (ulog (wuw w))).
 Qed.
 
+Lemma exec_drain_f c w st a vid sb eb k r :
+  cfg_wf c -> WRep c w st -> ufuse (wuw w) = Some k ->
+  sp_drain_f c st (unext (wuw w)) a vid sb eb k = Some r ->
+  res_matches_f c w (exec c (ODrain a vid sb eb [] FinDrop) w) r.
+Proof.
+  intros Hwf HW Hfuse Hr. unfold sp_drain_f in Hr.
+  destruct (get_a vid st) as [av|] eqn:Hg; [|discriminate].
+  destruct (wrep_get c w st vid av HW Hg) as (vv & Hgv & HV).
+  pose proof (vi_rep _ _ _ HV) as HR. pose proof (rep_len _ _ _ HR) as Hlen.
+  set (xs := a_xs av) in *. cbv zeta in Hr.
+  cbn [exec]. rewrite (bind_ok _ _ _ _ _ (peek_vec_ok vid w vv Hgv)). rewrite Hlen.
+  destruct (range_of_bounds usize_max (N.of_nat (length xs)) (to_sb sb) (to_sb eb)) as [[sN eN]|] eqn:Erb.
+  - destruct (into_range_ok _ sb eb (vv, wuw w) sN eN Erb) as (Eir & Hse & Hel).
+    set (s := N.to_nat sN) in *. set (e := N.to_nat eN) in *.
+    assert (HsN : sN = N.of_nat s) by (unfold s; rewrite N2Nat.id; reflexivity).
+    assert (HeN : eN = N.of_nat e) by (unfold e; rewrite N2Nat.id; reflexivity).
+    assert (Hse' : (s <= e)%nat) by lia. assert (Hel' : (e <= length xs)%nat) by lia.
+    rewrite (bind_ok _ _ _ _ _ (on_vec_ok vid _ w vv _ vv (wuw w) Hgv Eir)). cbn [fst snd].
+    set (w1 := put_vec vid (Some vv) (wuw w) w).
+    set (vr := with_len (N.of_nat s) vv).
+    pose proof (drain_new_spec c vv (wuw w) xs s e HR Hse' Hel') as Edn. rewrite <- HsN, <- HeN in Edn.
+    rewrite (bind_ok _ _ _ _ _ (on_vec_ok vid _ w1 vv _ _ _ (get_vec_put_same vid (Some vv) (wuw w) w) Edn)).
+    rewrite HsN, HeN. fold vr.
+    set (w2 := put_vec vid (Some vr) (wuw w1) w1).
+    cbn [walk dcur]. unfold ret at 1. unfold bind at 1. cbn [fst snd].
+    change (put_vec vid (Some vr) (wuw w) w1) with w2.
+    pose proof (range_alive_any c vv xs s e s e HR (le_n s) Hse' (le_n e) Hel') as HA. fold vr in HA.
+    set (range := firstn (e - s) (skipn s xs)) in *.
+    assert (Hlr : length range = (e - s)%nat).
+    { unfold range. rewrite firstn_length_le; [reflexivity|rewrite skipn_length; lia]. }
+    assert (HA' := HA). destruct HA' as [Hle' Hlen' Hcap' Hus' Hst' Hp' Hm' Ht' Htok'].
+    assert (Htokm : Forall (tok_ok (szn c)) range) by (apply Forall_firstn', Forall_skipn'; exact Htok').
+    destruct (drop_range_fused c (known_of a) vr (wuw w) range s e k Hst' Hse' ltac:(lia) Hlr Hm' Htokm Hfuse)
+      as (u' & Edr & Hn' & Hl').
+    assert (Hg2 : get_vec vid w2 = Some vr) by (apply get_vec_put_same).
+    assert (Hu2 : wuw w2 = wuw w) by reflexivity.
+    destruct (c_dg c && (k <? N.of_nat (e - s))) eqn:Ecase.
+    + (* a destructor panics: the tail is not moved *)
+      injection Hr as <-.
+      assert (Edd : drain_drop c (known_of a) (with_cur {| ci := N.of_nat s; ce := N.of_nat e |}
+                       {| dcur := {| ci := N.of_nat s; ce := N.of_nat e |}; dstart := N.of_nat s; dend := N.of_nat e;
+                          dorig := N.of_nat (length xs) |}) (vr, wuw w2) = Panic PUser (vr, u')).
+      { unfold drain_drop, with_cur. cbn [dcur ci ce dend dstart dorig]. apply bind_panic. rewrite Hu2. exact Edr. }
+      unfold bind at 1. rewrite (on_vec_panic vid _ w2 vr PUser vr u' Hg2 Edd).
+      cbn [res_matches_f panic_res s_out s_pk s_ret s_st s_evs s_nx].
+      split; [reflexivity|split; [reflexivity|split; [reflexivity|]]]. rewrite N.sub_diag.
+      constructor.
+      * intros n. unfold w2, w1. rewrite !put_put_slot.
+        apply (wrep_put c w st vid (Some vr) (Some (with_xs av (firstn s xs))) u' HW).
+        apply vi_prefix; [exact HV|unfold xs in *; lia].
+      * rewrite wuw_put. lia.
+      * rewrite wuw_put. unfold uevents. rewrite Hl'.
+        apply andb_prop in Ecase. destruct Ecase as [Hdg Hlt]. rewrite Hdg, Hlt.
+        destruct a; cbn [known_of]; apply (uevents_drops true).
+    + (* no panic inside this step *)
+      unfold sp_drain in Hr. rewrite Hg in Hr. fold xs in Hr. cbv zeta in Hr. rewrite Erb in Hr.
+      cbn [sp_walk] in Hr. fold s e in Hr. injection Hr as <-.
+      destruct (drain_drop_after c vr (wuw w) u' xs s e s e (known_of a) HA Edr) as (v' & Edd & HR' & Hc' & Hb').
+      assert (Edd' : drain_drop c (known_of a) (with_cur {| ci := N.of_nat s; ce := N.of_nat e |}
+                       {| dcur := {| ci := N.of_nat s; ce := N.of_nat e |}; dstart := N.of_nat s; dend := N.of_nat e;
+                          dorig := N.of_nat (length xs) |}) (vr, wuw w2) = Ok tt (v', u')).
+      { rewrite Hu2. exact Edd. }
+      unfold bind at 1. rewrite (on_vec_ok vid _ w2 vr tt v' u' Hg2 Edd'). unfold ret.
+      assert (Hcl : cur_len {| ci := N.of_nat s; ce := N.of_nat e |} = N.of_nat (e - s)) by (unfold cur_len; cbn [ci ce]; lia).
+      rewrite Hcl.
+      cbn [res_matches_f ok_res s_out s_pk s_ret s_st s_evs s_nx flat_map app].
+      split; [reflexivity|split; [reflexivity|split; [reflexivity|]]]. rewrite N.sub_diag.
+      constructor.
+      * intros n. unfold w2, w1. rewrite !put_put_slot.
+        apply (wrep_put c w st vid (Some v') (Some (with_xs av (VecSpec.sp_drain s e xs))) u' HW).
+        destruct HV as [HRv Hbk Hbw Hcap Hfits]. constructor; cbn [with_xs a_bk a_xs]; auto.
+        -- unfold vr in Hb'. cbn [with_len vbk] in Hb'. congruence.
+        -- unfold vr in Hc'. cbn [with_len vcap] in Hc'. destruct (acap c (a_bk av)); [congruence|exact I].
+      * rewrite wuw_put. lia.
+      * rewrite wuw_put. unfold uevents. rewrite Hl'. fold range.
+        destruct (c_dg c) eqn:Hdg; [|reflexivity]. cbn [andb] in Ecase. rewrite Ecase.
+        exact (uevents_drops true range (ulog (wuw w))).
+  - (* invalid range *)
+    injection Hr as <-.
+    pose proof (into_range_panic _ sb eb (vv, wuw w) Erb) as Ep.
+    rewrite (bind_panic _ _ _ _ _ (on_vec_panic vid _ w vv _ vv (wuw w) Hgv Ep)).
+    cbn [res_matches_f panic_res s_out s_pk s_ret s_st s_evs s_nx].
+    split; [reflexivity|split; [reflexivity|split; [reflexivity|]]]. rewrite N.sub_diag.
+    constructor.
+    + apply (wrep_put_same c w st vid vv av); assumption.
+    + rewrite wuw_put. lia.
+    + rewrite wuw_put. reflexivity.
+Qed.
+
 Lemma exec_fused c w st k o r :
   cfg_wf c -> WRep c w st -> ufuse (wuw w) = Some k ->
   spec_step_f c st (unext (wuw w)) (Some k) o = Some r ->
@@ -262,6 +436,8 @@ Proof.
   - (* OSwapRemove *) destruct k0; try discriminate.
     exact (exec_take_drop_f c w st a v TSwapRemove idx k r Hwf HW Hfuse ltac:(discriminate) Hr).
   - (* OClear *) exact (exec_clear_f c w st a v k r HW Hfuse Hr).
+  - (* ODrain *) destruct pat; [|discriminate]. destruct f; [|discriminate].
+    exact (exec_drain_f c w st a v sb eb k r Hwf HW Hfuse Hr).
 Qed.
 
 Definition armed (k : N) (w : world) : world :=
@@ -282,6 +458,13 @@ Proof.
   - unfold sp_clear_f in H.
     destruct (get_a v st) as [av|]; [|discriminate]. cbv zeta in H.
     destruct (c_dg c && (k <? N.of_nat (length (a_xs av)))); injection H as <-; cbn; split; lia.
+  - destruct pat; [|discriminate]. destruct f; [|discriminate]. unfold sp_drain_f in H.
+    destruct (get_a v st) as [av|] eqn:Hg; [|discriminate]. cbv zeta in H.
+    destruct (range_of_bounds usize_max (N.of_nat (length (a_xs av))) (to_sb sb) (to_sb eb)) as [[s0 e0]|].
+    + destruct (c_dg c && (k <? N.of_nat (N.to_nat e0 - N.to_nat s0))).
+      * injection H as <-. cbn; split; lia.
+      * exact (sp_drain_nx _ _ _ _ _ _ _ _ _ H).
+    + injection H as <-. cbn; split; lia.
 Qed.
 
 (** one script step, with or without a fuse *)
@@ -359,7 +542,12 @@ Definition exf_ops : list (option N * op) :=
     (Some 0, OPop Erased 0 KDrop);           (* empty: None *)
     (None, OPush Erased 0 SWrap); (Some 5, OClear Typed 0); (None, ODropVec 0);
     (None, ONew 1 BHeap); (None, OPush Erased 1 SWrap); (None, OPush Erased 1 SWrap);
-    (Some 0, ODropVec 1) ].                  (* the vector is dropped, its first destructor panics: the second element is leaked *)
+    (Some 0, ODropVec 1);                    (* the vector is dropped, its first destructor panics: the second element is leaked *)
+    (None, ONew 2 BHeap); (None, OPush Erased 2 SWrap); (None, OPush Erased 2 SWrap); (None, OPush Erased 2 SWrap); (None, OPush Erased 2 SWrap);
+    (Some 1, ODrain Erased 2 (BIncluded 0) (BExcluded 3) [] FinDrop);   (* erased drain: stops at the panicking destructor *)
+    (None, OPush Erased 2 SWrap); (None, OPush Erased 2 SWrap); (None, OPush Erased 2 SWrap);
+    (Some 0, ODrain Typed 2 BUnbounded (BExcluded 2) [] FinDrop);       (* typed drain: the slice drop goes on, then unwinds *)
+    (Some 7, ODrain Typed 2 BUnbounded BUnbounded [] FinDrop) ].
 Example exf_outcomes :
   map (fun r => (s_out r, s_pk r, s_evs r, map (fun o => match o with Some a => a_xs a | None => [] end) (s_st r)))
       (match spec_run_f ex_cfg [] 1 exf_ops with Some rs => rs | None => [] end)
@@ -368,7 +556,11 @@ Example exf_outcomes :
      (0,0,[],[[5]]); (0,0,[],[[5;6]]); (0,0,[],[[5;6;7]]);
      (2,8,[EDrop 5; EDrop 6],[[]]); (1,0,[],[[]]);
      (0,0,[],[[8]]); (0,0,[EDrop 8],[[]]); (0,0,[],[[]]);
-     (0,0,[],[[]; []]); (0,0,[],[[]; [9]]); (0,0,[],[[]; [9;10]]); (2,8,[EDrop 9],[[]; []])].
+     (0,0,[],[[]; []]); (0,0,[],[[]; [9]]); (0,0,[],[[]; [9;10]]); (2,8,[EDrop 9],[[]; []]);
+     (0,0,[],[[]; []; []]); (0,0,[],[[]; []; [11]]); (0,0,[],[[]; []; [11;12]]); (0,0,[],[[]; []; [11;12;13]]); (0,0,[],[[]; []; [11;12;13;14]]);
+     (2,8,[EDrop 11; EDrop 12],[[]; []; []]);
+     (0,0,[],[[]; []; [15]]); (0,0,[],[[]; []; [15;16]]); (0,0,[],[[]; []; [15;16;17]]);
+     (2,8,[EDrop 15; EDrop 16],[[]; []; []]); (0,0,[],[[]; []; []])].
 Proof. vm_compute. reflexivity. Qed.
 Fixpoint Admissible_fb (c : cfg) (w : world) (ops : list (option N * op)) : bool :=
   match ops with
